@@ -12,6 +12,7 @@
     System_app              every readable application region is in the memory list with its address, length, bytes
 -/
 import MdwModel.Model.System
+import MdwModel.Generated.Source
 import MdwModel.Theorems.EndToEndMem
 import MdwModel.Theorems.Compose
 namespace Mdw
@@ -243,6 +244,10 @@ theorem System_crash_context (s : SysState) (r : Request) (img : Bytes) (h : sys
   simp only [hdc, hctx', hbl] at e2 e3
   subst hi
   exact ⟨d, dt, hd, hdk, hctx', hsp', hip', e1, e2, e3⟩
+
+/-- **Proof obligation over the regenerated source.** `gatherApp` records, for every region, what was copied: the
+    descriptor in `app_memory::write` is the location of the copied bytes (or the writer is no longer recognisable). -/
+theorem gatherApp_descriptor_agrees : Src.appDescriptorOfCopy = none ∨ Src.appDescriptorOfCopy = some true := by decide
 
 /-- the application regions are gathered one to one, in order -/
 theorem gatherApp_get (mem : TMem) (app : List (Nat × Nat)) (out : List (Nat × Bytes)) (h : gatherApp mem app = .ok out) :
